@@ -12,6 +12,18 @@ pub fn gen_ev(r: &mut Rng, thorough: bool, cx: &mut Ctx) {
         let n = if kind == 5 { 2 } else { per_kind };
         for _ in 0..n { let e = gen_event(r, kind, max_data); cx.emit(&e); }
     }
+    // systematic sweeps of the scalar fields: every u8 value, and u16 values on a lattice (thorough: every u16 value)
+    let widths: [&[u8]; 16] = [&[16, 16], &[16], &[16, 16, 32], &[16, 16], &[16, 16], &[], &[16, 16, 8], &[16, 16, 8], &[16, 16, 8], &[16], &[16, 16, 32], &[16, 16, 16], &[16, 16, 16], &[16, 16, 8, 32], &[16, 16, 8], &[16, 16]];
+    for kind in 0..16u64 {
+        for (i, w) in widths[kind as usize].iter().enumerate() {
+            let vals: Vec<u64> = match *w {
+                8 => (0..256).collect(),
+                16 => if thorough { (0..65536).collect() } else { (0..256).chain((0..256).map(|x| x << 8)).chain((0..256).map(|x| x * 257)).chain(65280..65536).collect() },
+                _ => (0..32).map(|b| 1u64 << b).chain((0..32).map(|b| (1u64 << b) - 1)).chain((0..4).flat_map(|sh| (0..256u64).map(move |x| x << (8 * sh)))).collect(),
+            };
+            for v in vals { let mut e = gen_event(r, kind, 8); if kind == 4 && i == 2 { continue; } e[1 + i] = v; cx.emit(&e); }
+        }
+    }
     // data events at the size limits
     let big: &[usize] = if thorough { &[65535, 65534, 65535, 32768, 28672, 28666] } else { &[65535, 28666] };
     for n in big { let mut v = vec![4, r.u16b(), r.u16b(), *n as u64]; v.extend(r.bytes(*n).iter().map(|b| *b as u64)); cx.emit(&v); }
